@@ -12,7 +12,8 @@ TRUST = ("Trusted: the harness (recorder, generators), the reference model / tra
 
 CHECKS = {
     "C01": {
-        "text": "Exploration: tens of thousands of generated legal histories (all op kinds, 10 workload profiles, N 1..16, cap 2..256); "
+        "text": "Exploration: a complete small-scope sweep (all legal histories over 3-4 ids to depth 9 quick / 12 thorough) plus tens of thousands of "
+                "generated legal histories (add/bind/put/data/kid/kids/next_id/clone/slice/merge/save+load, 10 workload profiles, N 1..16, cap 2..256); "
                 "after every single call a model-free trace monitor applies the five refutation rules of the statement to the keys() diff. "
                 "Right level because the property is a safety property over call histories: one bad call refutes it and is directly observable.",
         "design_ref": "§4 C01, §3.4-3.7",
@@ -20,8 +21,10 @@ CHECKS = {
         "technique": "online trace monitor (model-free) over recorded call histories + drain probe",
     },
     "C02": {
-        "text": "Exploration: generated legal histories compared call by call with an executable reference model of the group semantics "
-                "(alive set equality), panics caught; every history ends with a drain probe so counter drift becomes observable.",
+        "text": "Exploration: a complete small-scope sweep plus generated legal histories of primitive calls (add, bind, put, data, kid, kids, next_id) "
+                "compared call by call with an executable reference model of the group semantics (alive set equality), panics caught; every history "
+                "ends with a drain probe (and slot-fill probe) so counter drift becomes observable; a second, independent Python oracle re-judges "
+                "dumped event logs (stage offline).",
         "design_ref": "§4 C02, §3.5, §3.7",
         "note": TRUST + " The model recounts unread data instead of keeping counters, so it shares no mechanism with the code.",
         "technique": "differential monitoring against an executable reference model + drain/slot-fill probes",
@@ -120,12 +123,14 @@ CHECKS = {
         "technique": "round-trip monitor with the string itself as oracle",
     },
     "C11": {
-        "text": "Exploration with a complete small-scope sweep (all ordered tree pairs up to 3x5 vertices, all data placements) plus random larger "
-                "trees with GC history: the result of merge is walked path by path, and the continuation of reads is judged by the C01 trace "
-                "rules, the reference model and byte read-back.",
+        "text": "Exploration with a complete small-scope sweep (all ordered tree pairs up to 3x5 vertices, all data placements incl. zero-length and "
+                "already-read data) plus random larger trees (GC history, tight capacities): facts about the call (Ok, nothing removed, right graph "
+                "unchanged) and a twin on which the documented algorithm is carried out with public calls (kid / next_id+add+bind / put); the merged "
+                "graph must equal that reference up to a renaming of the new vertices, now and after every read of a continuation.",
         "design_ref": "§4 C11",
-        "note": TRUST + " New vertex ids are taken from the real graph (path walk), so merge's traversal order is not hard-wired.",
-        "technique": "result monitor by path walk + trace/model monitors on the read continuation",
+        "note": TRUST + " 'As if by add/bind/put' is decided between two real graphs, so defects of add/bind/put/next_id themselves are not blamed on merge; "
+                "which fresh id goes where is left free (comparison up to renaming along the right tree's paths).",
+        "technique": "twin-execution differential monitor (merge vs. the same additions made by public calls) + facts about the call",
     },
     "C12": {
         "text": "Exploration: right graphs that fall apart in every generated way; Ok must imply that every present vertex is reachable, "
